@@ -238,7 +238,79 @@ func showGo(v interface{}) string {
 
 var c08Compress = []string{"None", "Gzip", "Zip", "Bzip2", "Lz4", "Deflate", "Zstd", "Sevenz", "gzip", "", "bogus"}
 
+// runC08Big: undo logs that compress extremely well (one long run of one byte, megabytes of a short period): the
+// compressor's round trip must not depend on the ratio it reaches
+func runC08Big(c *Ctx) {
+	mgr := base.NewBaseUndoLogManager()
+	sizes := []int{30_000, 300_000, 1_200_000}
+	if c.Tier == "thorough" {
+		sizes = append(sizes, 5_000_000)
+	}
+	n := 0
+	for _, ser := range []string{"json", "protobuf"} {
+		for _, comp := range c08Compress {
+			for _, size := range sizes {
+				for _, period := range []int{1, 7} {
+					n++
+					cid := fmt.Sprintf("big-%d", n)
+					if !c.Want(cid) {
+						continue
+					}
+					undo.InitUndoConfig(undo.Config{DataValidation: true, LogSerialization: ser, LogTable: "undo_log",
+						CompressConfig: undo.CompressConfig{Enable: comp != "None", Type: comp, Threshold: "64k"}})
+					text := strings.Repeat("abcdefg"[:period], size/period)
+					tx := types.NewTxCtx()
+					tx.TransactionMode = types.ATMode
+					tx.XID = fmt.Sprintf("10.0.0.1:8091:%d", 900000+n)
+					tx.BranchID = uint64(900000 + n)
+					mkImg := func(v string) *types.RecordImage {
+						return &types.RecordImage{TableName: "big", SQLType: types.SQLTypeUpdate, Rows: []types.RowImage{{Columns: []types.ColumnImage{
+							{KeyType: types.IndexTypePrimaryKey, ColumnName: "id", ColumnType: types.JDBCTypeBigInt, Value: int64(1)},
+							{KeyType: types.IndexTypeNull, ColumnName: "doc", ColumnType: types.MySQLStrToJavaType("LONGTEXT"), Value: v}}}}}
+					}
+					tx.RoundImages.AppendBeofreImage(mkImg(text))
+					tx.RoundImages.AppendAfterImage(mkImg("x"))
+					conn := &captureConn{}
+					var decoded *undo.BranchUndoLog
+					var ferr, derr error
+					pn := safeCall(func() {
+						ferr = mgr.FlushUndoLog(tx, conn)
+						if ferr == nil && conn.n > 0 {
+							decoded, derr = base.VerifDecodeUndoLog(conn.ctx, conn.info)
+						}
+					})
+					c.Out.Case(cid, "C08", "skip", "skip")
+					class, detail := "", ""
+					switch {
+					case pn != "":
+						class, detail = "crash", pn
+					case ferr != nil:
+						class, detail = "flush_failed", ferr.Error()
+					case derr != nil:
+						class, detail = "log_cannot_be_read_back", derr.Error()
+					case decoded == nil || len(decoded.Logs) != 1 || decoded.Logs[0].BeforeImage == nil || len(decoded.Logs[0].BeforeImage.Rows) != 1:
+						class, detail = "log_shape_lost", ""
+					default:
+						got := decoded.Logs[0].BeforeImage.Rows[0].Columns[1].Value
+						gs, isStr := got.(string)
+						if b, isB := got.([]byte); isB {
+							gs, isStr = string(b), true
+						}
+						if !isStr || gs != text {
+							class, detail = "value_changed", fmt.Sprintf("%d bytes in, %T of %d bytes out", len(text), got, len(gs))
+						}
+					}
+					c.Out.Oracle(cid, class == "", class, fmt.Sprintf("%s | ser=%s comp=%s size=%d period=%d stored=%d", detail, ser, comp, size, period, len(conn.info)))
+					c.Out.Tag(cid, "nontrivial=1")
+					c.Out.Count("big." + comp)
+				}
+			}
+		}
+	}
+}
+
 func runC08(c *Ctx) {
+	runC08Big(c)
 	rng := NewRng(c.Seed)
 	nLogs := c.Budget(300, 20000)
 	mgr := base.NewBaseUndoLogManager()
